@@ -249,8 +249,15 @@ def check_history(ctx, case: Dict[str, Any], obs: Dict[str, Any], *, timeout: fl
             ctx.violation("request_content", f"request id {dump.get('id')!r} is not str/int", case)
         ep = expect_request.get("params")
         gp = dump.get("params")
-        if expect_request.get("meta_added") and isinstance(gp, dict) and "_meta" in gp and not (isinstance(ep, dict) and "_meta" in ep):
-            gp = {k: v for k, v in gp.items() if k != "_meta"}   # the progress token the library adds
+        if expect_request.get("meta_added") and isinstance(gp, dict) and isinstance(gp.get("_meta"), dict):
+            # with a progress callback the library puts its own progress token into _meta (replacing a caller's): the
+            # token aside, _meta is the caller's
+            gmeta = {k: v for k, v in gp["_meta"].items() if k != "progressToken"}
+            emeta = {k: v for k, v in ((ep or {}).get("_meta") or {}).items() if k != "progressToken"} if isinstance(ep, dict) else {}
+            gp = {k: v for k, v in gp.items() if k != "_meta"}
+            ep = {k: v for k, v in ep.items() if k != "_meta"} if isinstance(ep, dict) else ep
+            if not strict_eq(gmeta, emeta):
+                ctx.violation("request_content", f"request _meta {gmeta!r} (token aside) != given {emeta!r}", case)
         if not (strict_eq(gp, ep) or (ep is None and gp in (None, {})) ):
             ctx.violation("request_content", f"request params {gp!r} != given {ep!r}", case)
     extra = [e for e in sends if e not in reqs]
@@ -381,7 +388,11 @@ def _time_grid(timeout: float, fine: bool) -> List[float]:
 
 
 ID_SHAPES = [None, "req-1", "123", "007", "-5", "a b", "ünï-😀", "0", "reuse-7"]
-PARAMS_SHAPES = [None, {}, {"name": "t", "arguments": {"a": None, "b": [1, {"c": None}]}}]
+PARAMS_SHAPES = [None, {}, {"name": "t", "arguments": {"a": None, "b": [1, {"c": None}]}},
+                 # a caller that chooses its own progress token (and follows the progress itself), other _meta members
+                 {"name": "slow", "arguments": {}, "_meta": {"progressToken": "caller-tok-1"}},
+                 {"name": "slow", "_meta": {"progressToken": 7, "trace": {"id": None}}},
+                 {"_meta": {}}, {"_meta": {"only": "this"}}]
 
 
 def gen_cases(ctx):
